@@ -85,14 +85,30 @@ func (o *Operation) Equal(o2 *Operation) error {
 	return nil
 }
 
+// fileNamePart makes a round, batch or operation id safe for use in a file name: the ids come
+// from board messages (the round id of an opening proposal and the batch id of a signing proposal
+// are chosen freely by their sender), so they may be shorter than expected or contain path
+// separators.
+func fileNamePart(id string, max int) string {
+	if max > 0 && len(id) > max {
+		id = id[:max]
+	}
+	return strings.Map(func(r rune) rune {
+		if (r >= 'a' && r <= 'z') || (r >= 'A' && r <= 'Z') || (r >= '0' && r <= '9') || r == '-' || r == '_' {
+			return r
+		}
+		return '_'
+	}, id)
+}
+
 func (o *Operation) Filename() (filename string) {
-	filename = fmt.Sprintf("dkg_id_%s", o.DKGIdentifier[:5])
+	filename = fmt.Sprintf("dkg_id_%s", fileNamePart(o.DKGIdentifier, 5))
 
 	if o.IsSigningState() {
 		var payload responses.SigningPartialSignsParticipantInvitationsResponse
 
 		if err := json.Unmarshal(o.Payload, &payload); err == nil {
-			filename = fmt.Sprintf("%s_signing_id_%s", filename, payload.BatchID)
+			filename = fmt.Sprintf("%s_signing_id_%s", filename, fileNamePart(payload.BatchID, 0))
 		}
 	}
 
@@ -101,7 +117,7 @@ func (o *Operation) Filename() (filename string) {
 		filename,
 		getStepNumber(o.Type),
 		getShortOperationDescription(o.Type),
-		o.ID[:5],
+		fileNamePart(o.ID, 5),
 	)
 }
 
